@@ -196,6 +196,16 @@ def main(ck):
     pscale = sum(abs(float(S.body_mass[b])) * float(np.abs(S.gravity) @ np.abs(k.xipos[b])) for b in range(1, m.nbody)) + abs(pe_ref_s) + 1e-300
     close('PE-reference', float(d.energy[0]), pe_ref_g + pe_ref_s, pscale, K_E * EPS, 'energy[0] vs reference potential', 'potential-reference')
 
+    # ---------------- (c') "reported kinetic energy ALWAYS equals 1/2 v'Mv": also after stage-skipping evaluations
+    for (fn, skipsensor) in ((lib.mj_forwardSkip, 0), (lib.mj_forwardSkip, 1), (lib.mj_inverseSkip, 1)):
+      dsk = lib.copy_data(m, d)
+      vnew = v0[::-1] * 0.5 + 0.3          # a different velocity, positions untouched
+      dsk.qvel[:] = vnew
+      fn(m, dsk, E.mjSTAGE_POS, skipsensor)
+      close('KE-after-skip', float(dsk.energy[1]), 0.5 * vnew @ M @ vnew, float(np.abs(vnew) @ np.abs(M) @ np.abs(vnew)) + 1e-300, 64 * EPS,
+            'energy[1] after a qvel change and %s(mjSTAGE_POS, skipsensor=%d) vs 1/2 v\' M v' % (fn.name, skipsensor), 'kinetic-after-skip')
+      close('PE-after-skip', float(dsk.energy[0]), float(d.energy[0]), pscale, 64 * EPS, 'energy[0] unchanged by a velocity-only re-evaluation', 'kinetic-after-skip')
+
     # ---------------- (b') subtree momentum vs reference at the initial state
     lib.mj_subtreeVel(m, d)
     vmax = np.abs(v0).max() + 1
